@@ -434,7 +434,9 @@ class WSGITask(Task):
                         "a WSGI application (see PEP 3333)" % k
                     )
 
-            self.response_headers.extend(headers)
+            # keep our own (name, value) tuples: the application may hand us
+            # mutable items and change them after they have been validated
+            self.response_headers.extend((k, v) for k, v in headers)
 
             # Return a method used to write the response data.
             return self.write
